@@ -91,10 +91,19 @@ inductive Raw where
 def int64Min : Int := -9223372036854775808
 def int64Max : Int := 9223372036854775807
 
-/-- json.Number.Int64: decimal integer text in the int64 range -/
+/-- The grammar of `strconv.ParseInt(s, 10, _)`: an optional sign (`+` or `-`), then decimal digits.
+    Underscores are rejected (Go accepts them only with base 0); Lean's `String.toInt?` accepts
+    them and does not accept `+`, so it is guarded on both sides. -/
+def goDecInt (s : String) : Option Int :=
+  match s.toList with
+  | '+' :: rest =>
+    if rest.isEmpty || !(rest.all Char.isDigit) then none else (String.ofList rest).toInt?
+  | cs => if cs.any (· == '_') then none else s.toInt?
+
+/-- json.Number.Int64 = strconv.ParseInt(text, 10, 64) -/
 def parseInt64 (s : String) : Option Int :=
-  match s.toInt? with
-  | some i => if int64Min ≤ i ∧ i ≤ int64Max ∧ !(s.startsWith "+") then some i else none
+  match goDecInt s with
+  | some i => if int64Min ≤ i ∧ i ≤ int64Max then some i else none
   | none => none
 
 mutual
@@ -108,7 +117,7 @@ def normalize : Raw → R Val
   | .jnum text fr =>
     match parseInt64 text with
     | some i => pure (.int i)
-    | none => pure (.flt fr)
+    | none => if fr.isEmpty then throw Err.other else pure (.flt fr)   -- "" : json.Number.Float64 failed (out of range)
   | .str s => pure (.str s)
   | .list xs => do pure (.list (← normalizeList xs))
   | .map kvs => do pure (.map (fofList (← normalizeFields kvs)))
@@ -136,7 +145,7 @@ inductive YNode where
 /-- strconv.ParseInt(text, 10, 32|64) on the decimal grammar Go accepts (optional sign, digits,
     underscores only with base prefix — i.e. none here) -/
 def parseGoInt (s : String) (bits : Nat) : Option Int :=
-  match s.toInt? with
+  match goDecInt s with
   | some i => if -(2 ^ (bits - 1) : Int) ≤ i ∧ i < (2 ^ (bits - 1) : Int) then some i else none
   | none => none
 
@@ -153,7 +162,7 @@ def yamlScalar (tag value floatRepr : String) : R Raw :=
       match parseGoInt value 64 with
       | some i => pure (.goInt64 i)
       | none => throw Err.other
-  | "!!float" => pure (.goFloat floatRepr)
+  | "!!float" => if floatRepr.isEmpty then throw Err.other else pure (.goFloat floatRepr)   -- "" : strconv.ParseFloat failed
   | "!!null" => pure .null
   | "!!str" => pure (.str value)
   | "!!timestamp" => pure (.str value)
